@@ -156,6 +156,54 @@ theorem nextVersion_covers (cl : List Child) (tl : Timeline cl) (o : Options) (c
         have := tl.indexed _ _ hg
         omega
 
+theorem countBefore_le_countAt (cl : List Child) (t : Int) : countBefore cl t ≤ countAt cl t := by
+  unfold countAt countBefore
+  induction cl with
+  | nil => simp
+  | cons c rest ih =>
+    simp only [List.filter_cons]
+    by_cases h1 : commitOf c < t
+    · have : commitOf c ≤ t := by omega
+      simp [h1, this]; exact ih
+    · by_cases h2 : commitOf c ≤ t
+      · simp [h1, h2]; omega
+      · simp [h1, h2]; exact ih
+
+/-- **and no further**: the update range ends at or before the versions committed up to the next parent version's
+    commit — no version committed after the next parent version is ever put into this version's update list
+    (whatever child reference `cur` the step started from) -/
+theorem nextVersion_upper (cl : List Child) (tl : Timeline cl) (o : Options) (cur : Option Child) (n : ParentV) (N : Int)
+    (hN : ParentCommit n N) : nextVersionIndex cur cl (some n) o ≤ countAt cl N := by
+  unfold nextVersionIndex
+  simp only [parentTime hN, child_is_current_at_commit cl tl]
+  have hvb : (match versionBefore cl N with | some b => b.vindex + 1 | none => 0) ≤ countAt cl N := by
+    rw [versionBefore_commit cl N tl.regime tl.sorted, sorted_filter_lt_eq_take cl N tl.sorted]
+    have hbl := countBefore_le_length cl N
+    have hba := countBefore_le_countAt cl N
+    cases hg : (cl.take (countBefore cl N)).getLast? with
+    | none => simp
+    | some b =>
+      simp only
+      rw [List.getLast?_eq_getElem?, List.length_take, Nat.min_eq_left hbl] at hg
+      have hb0 : countBefore cl N ≠ 0 := by intro e; rw [e] at hg; simp at hg
+      rw [List.getElem?_take_of_lt (by omega)] at hg
+      have := tl.indexed _ _ hg
+      omega
+  cases hnx : currentAt cl N with
+  | some nx =>
+    obtain ⟨n0, _, nidx, _, _⟩ := currentAt_position tl hnx
+    simp only
+    split <;> omega
+  | none =>
+    simp only
+    cases cur with
+    | none => exact hvb
+    | some c =>
+      simp only
+      split
+      · omega
+      · exact hvb
+
 /-- what one (child, parent version) step produces in the commit-time regime when the child is consistent -/
 theorem groupEffect_commit (o : Options) (parents : List ParentV) (fid : Nat) (cl : List Child) (tl : Timeline cl)
     (pidx : Nat) (idxs : List Nat) (p : ParentV) (hp : parents[pidx]? = some p) (hvis : p.visible = true)
@@ -567,6 +615,31 @@ def exCl : List Child := [
   ⟨2, 11, 1, 1400000100, some 1400000100, 2, 2, true, false⟩,
   ⟨3, 12, 2, 1400000300, some 1400000300, 3, 3, true, false⟩]
 def exParents : List ParentV := [⟨10, true, 1400000050, some 1400000050, [(7, false)]⟩, ⟨12, true, 1400000300, some 1400000300, [(7, false)]⟩]
+example : Timeline exCl := by
+  refine ⟨?_, by unfold CommitSorted; decide, ?_, by decide⟩
+  · intro c hc
+    simp only [exCl, List.mem_cons, List.not_mem_nil, or_false] at hc
+    rcases hc with rfl | rfl | rfl
+    · exact ⟨1400000000, rfl, by decide⟩
+    · exact ⟨1400000100, rfl, by decide⟩
+    · exact ⟨1400000300, rfl, by decide⟩
+  · intro k c h
+    match k with
+    | 0 => simp [exCl] at h; subst h; rfl
+    | 1 => simp [exCl] at h; subst h; rfl
+    | 2 => simp [exCl] at h; subst h; rfl
+    | k + 3 => simp [exCl] at h
+/-- a history with a deleted version inside the update range: the documented error, or skipped when ignored -/
+def exDel : List Child := [
+  ⟨1, 10, 0, 1400000000, some 1400000000, 1, 1, true, false⟩,
+  ⟨2, 11, 1, 1400000100, some 1400000100, 0, 0, false, false⟩,
+  ⟨3, 12, 2, 1400000200, some 1400000200, 3, 3, true, false⟩]
+example : (match groupEffect ⟨1800, false, false, 0⟩ exParents 7 exDel 0 [0] with
+    | .error (.deletedBetween p f) => some (p, f)
+    | _ => none) = some (0, 7) := by decide
+example : (match groupEffect ⟨1800, true, false, 0⟩ exParents 7 exDel 0 [0] with
+    | .ok (some e) => e.updates.map (·.version)
+    | _ => []) = [3] := by decide
 example : currentAt exCl 1400000050 = some ⟨1, 10, 0, 1400000000, some 1400000000, 1, 1, true, false⟩ := by decide
 example : (match groupEffect ⟨1800, false, false, 0⟩ exParents 7 exCl 0 [0] with
     | .ok (some e) => e.updates.map (·.version)
